@@ -27,34 +27,8 @@ func gcLivenessGroup(c *Ctx, rule string) {
 			gcLiveness(c, rule, proc)
 		}
 	}
-	if fn := c.Fn("", "valueLog.doRunGC"); fn != nil {
-		// the sampling callback: discard decision uses bucket != and Fid > / Offset > too
-		for _, cl := range fn.AnonFuncs {
-			if len(Calls(cl, false, Named("kv.DiscardEntry"))) == 0 {
-				continue
-			}
-			var bucketNE, fidGT, offGT bool
-			AllInstrs(cl, false, func(in ssa.Instruction) {
-				bo, ok := in.(*ssa.BinOp)
-				if !ok {
-					return
-				}
-				o, f, okf := FieldOf(Unwrap(bo.X))
-				if !okf || o != "kv.ValuePtr" {
-					return
-				}
-				switch {
-				case f == "Bucket" && bo.Op == token.NEQ:
-					bucketNE = true
-				case f == "Fid" && bo.Op == token.GTR:
-					fidGT = true
-				case f == "Offset" && bo.Op == token.GTR:
-					offGT = true
-				}
-			})
-			c.Decide(bucketNE && fidGT && offGT, rule, key(cl, "sample-discard-comparisons"), cl.Pos(), 3, "the sampler counts a record as garbage by bucket inequality and newer (fid, offset)", "the GC sampler no longer classifies garbage by `bucket != / Fid > / Offset >` comparisons on the decoded live pointer")
-		}
-	}
+	// The sampling callback of doRunGC only estimates how much of a segment is garbage; rewrite
+	// re-decides liveness per record, so the sampler carries no obligation.
 }
 
 // compactionKeepsAllGroup: the compaction loop adds every entry it visits to the output builder.
